@@ -61,6 +61,14 @@ func C15(p *load.Prog, r *oblig.Run) {
 	if f := p.Func(load.PkgCmd, "output"); f != nil {
 		entries = append(entries, f)
 	}
+	// the html formatter writes a result that is a component with its own WriteHTMLTo: the value arrives through
+	// reflection (interface{} -> core.Component), which the call graph cannot resolve. Every WriteHTMLTo method of a
+	// type of the library package is therefore an entry (today: gedcom.Warnings, the result of .Warnings).
+	for _, fn := range p.Repo {
+		if pkgPathOf(fn) == load.PkgRoot && fn.Name() == "WriteHTMLTo" && fn.Signature.Recv() != nil && fn.Synthetic == "" {
+			entries = append(entries, fn)
+		}
+	}
 	runE1(p, r, "R15", entries, linTolerated(p), 40)
 	recoverObligations(p, r, "R15", entries, 1)
 
@@ -204,6 +212,12 @@ func C14(p *load.Prog, r *oblig.Run) {
 	var entries []*ssa.Function
 	for _, n := range []string{"runWarningsCommand", "runPublishCommand", "runDiffCommand", "runQueryCommand"} {
 		entries = append(entries, p.MustFunc(load.PkgCmd, n))
+	}
+	// the query command's html formatter writes component results through reflection (see C15)
+	for _, fn := range p.Repo {
+		if pkgPathOf(fn) == load.PkgRoot && fn.Name() == "WriteHTMLTo" && fn.Signature.Recv() != nil && fn.Synthetic == "" {
+			entries = append(entries, fn)
+		}
 	}
 	runE1(p, r, "R14", entries, linTolerated(p), 100)
 	recoverObligations(p, r, "R14", entries, 1)
